@@ -1118,3 +1118,367 @@ impl Oracle for PaymentsResolveOracle {
 		Ok(label)
 	}
 }
+
+// -------------------------------------------------------------------------------------------------
+/// Off-chain funds of a node in msat: Σ over its open channels of (spendable + reserve). Exact
+/// only when the node has no pending HTLC (callers check `pending_htlcs == 0`).
+pub fn offchain_funds_msat(w: &World, node: usize) -> (u64, usize, usize) {
+	let mut total = 0u64;
+	let mut pending = 0usize;
+	let chans = w.nodes[node].cm.list_channels();
+	for c in chans.iter() {
+		total += c.outbound_capacity_msat + c.unspendable_punishment_reserve.unwrap_or(0) * 1000;
+		pending += c.pending_inbound_htlcs.len() + c.pending_outbound_htlcs.len();
+	}
+	(total, pending, chans.len())
+}
+
+/// C02: a forwarding node never loses money on an HTLC it forwards (wire-level step oracles +
+/// end-of-execution funds comparison for executions that stay off-chain).
+pub struct ForwardOracle {
+	pub chans: Vec<ChanInfo>,
+	/// forwarding node index
+	pub fwd: usize,
+	/// channel index upstream (payer side) and downstream
+	pub up: usize,
+	pub down: usize,
+	pub fee_base_msat: u64,
+	pub cltv_delta: u32,
+	pub funds_before: u64,
+	/// hash -> (amount_in, cltv_in, upstream htlc id)
+	incoming: BTreeMap<[u8; 32], (u64, u32, u64)>,
+	/// hash -> downstream preimage delivered to the forwarder
+	preimage_learned: BTreeMap<[u8; 32], bool>,
+	/// downstream commitments signed by the forwarder: (number, hashes of non-dust HTLCs it offers)
+	signed_down: Vec<(u64, Vec<[u8; 32]>)>,
+	/// lowest downstream counterparty commitment number revoked so far
+	down_revoked_from: u64,
+	/// hashes failed upstream
+	failed_up: BTreeMap<[u8; 32], bool>,
+	fulfilled_up: BTreeMap<[u8; 32], bool>,
+	forwarded_events: Vec<(Option<u64>, bool)>,
+	keys: BTreeMap<(u8, [u8; 32]), usize>,
+	pub closed_any: bool,
+	/// every commitment transaction of the downstream channel ever signed (by either side):
+	/// txid -> (hash, output index) of its non-dust HTLCs
+	down_commit_txs: BTreeMap<bitcoin::Txid, Vec<([u8; 32], Option<u32>)>>,
+}
+
+impl ForwardOracle {
+	pub fn new(w: &World, chans: Vec<ChanInfo>, fwd: usize, up: usize, down: usize) -> Self {
+		let (funds_before, _, _) = offchain_funds_msat(w, fwd);
+		let mut o = ForwardOracle {
+			chans,
+			fwd,
+			up,
+			down,
+			fee_base_msat: 1000,
+			cltv_delta: 72,
+			funds_before,
+			incoming: BTreeMap::new(),
+			preimage_learned: BTreeMap::new(),
+			signed_down: Vec::new(),
+			down_revoked_from: u64::MAX,
+			failed_up: BTreeMap::new(),
+			fulfilled_up: BTreeMap::new(),
+			forwarded_events: Vec::new(),
+			keys: BTreeMap::new(),
+			closed_any: false,
+			down_commit_txs: BTreeMap::new(),
+		};
+		let setup: Vec<Obs> = w.obs.clone();
+		let _ = o.scan(w, &setup);
+		o.signed_down.clear();
+		o
+	}
+	fn fail(d: String) -> Failure {
+		Failure::new("forwarder-safety", d)
+	}
+	/// On-chain branch of "can no longer be claimed by the next hop": the downstream funding output
+	/// was spent by a commitment that is buried by the anti-reorg depth and either does not contain
+	/// the HTLC, or contains it and its HTLC output was spent by a transaction that is buried too.
+	fn resolved_on_chain(&self, w: &World, h: &[u8; 32]) -> bool {
+		let fo = match self.chans[self.down].funding {
+			Some(f) => bitcoin::OutPoint { txid: f.0, vout: f.1 as u32 },
+			None => return false,
+		};
+		let tip = w.chain.height();
+		let (ctx, ch) = match w.chain.spent_by.get(&fo) {
+			Some(x) => *x,
+			None => return false,
+		};
+		if tip + 1 < ch + 6 {
+			return false;
+		}
+		match self.down_commit_txs.get(&ctx) {
+			None => false, // cooperative close or unknown transaction
+			Some(htlcs) => match htlcs.iter().find(|(hh, _)| hh == h) {
+				None => true,
+				Some((_, Some(idx))) => {
+					let op = bitcoin::OutPoint { txid: ctx, vout: *idx };
+					match w.chain.spent_by.get(&op) {
+						Some((_, sh)) => tip + 1 >= sh + 6,
+						None => false,
+					}
+				},
+				Some((_, None)) => true,
+			},
+		}
+	}
+
+	fn scan(&mut self, w: &World, obs: &[Obs]) -> Result<(), Failure> {
+		let up_cid = self.chans[self.up].cid;
+		let down_cid = self.chans[self.down].cid;
+		for o in obs {
+			match o {
+				Obs::Delivered { to, wire: Wire::Add(m), .. } if *to == self.fwd && m.channel_id == up_cid => {
+					self.incoming.insert(m.payment_hash.0, (m.amount_msat, m.cltv_expiry, m.htlc_id));
+				},
+				Obs::Sent { from, wire: Wire::Add(m), .. } if *from == self.fwd && m.channel_id == down_cid => {
+					if let Some((amt_in, cltv_in, _)) = self.incoming.get(&m.payment_hash.0) {
+						if m.amount_msat + self.fee_base_msat > *amt_in {
+							return Err(Self::fail(format!("forwarded {} msat downstream for {} msat received (fee {} not kept)", m.amount_msat, amt_in, self.fee_base_msat)));
+						}
+						if m.cltv_expiry + self.cltv_delta > *cltv_in {
+							return Err(Self::fail(format!("forwarded with expiry {} for incoming expiry {} (delta {} not kept)", m.cltv_expiry, cltv_in, self.cltv_delta)));
+						}
+						crate::runner::witness("c02-forward-amount-and-expiry-checked");
+					} else {
+						return Err(Self::fail("forwarded an HTLC that was never received upstream".into()));
+					}
+				},
+				Obs::Sig(SigEv::SignCounterpartyCommitment { node, keys_id, info }) => {
+					let n = (*node - b'A') as usize;
+					if !self.keys.contains_key(&(*node, *keys_id)) {
+						if let Some(fo) = info.funding_outpoint {
+							for ci in 0..self.chans.len() {
+								if self.chans[ci].funding == Some(fo) {
+									self.keys.insert((*node, *keys_id), ci);
+								}
+							}
+						}
+					}
+					if self.keys.get(&(*node, *keys_id)) == Some(&self.down) {
+						self.down_commit_txs.insert(info.txid, info.htlcs.iter().map(|h| (h.3, h.4)).collect());
+					}
+					if n != self.fwd {
+						continue;
+					}
+					if self.keys.get(&(*node, *keys_id)) == Some(&self.down) {
+						// HTLCs offered by the forwarder appear as *received* by the broadcaster (the downstream peer): offered == false
+						let hashes: Vec<[u8; 32]> = info.htlcs.iter().filter(|h| !h.0).map(|h| h.3).collect();
+						for h in hashes.iter() {
+							if self.failed_up.contains_key(h) {
+								return Err(Self::fail("signed a downstream commitment containing an HTLC whose upstream HTLC was already failed back".into()));
+							}
+						}
+						self.signed_down.push((info.number, hashes));
+					}
+				},
+				Obs::Persist { node, rec } if *node == self.fwd && rec.chan == down_cid => {
+					for st in rec.steps.iter() {
+						if st.name == "CommitmentSecret" {
+							if let Some(idx) = st.number {
+								self.down_revoked_from = self.down_revoked_from.min(idx);
+							}
+						}
+					}
+				},
+				Obs::Delivered { to, wire: Wire::Fulfill(m), .. } if *to == self.fwd && m.channel_id == down_cid => {
+					let h = {
+						use bitcoin::hashes::Hash;
+						bitcoin::hashes::sha256::Hash::hash(&m.payment_preimage.0).to_byte_array()
+					};
+					self.preimage_learned.insert(h, true);
+					crate::runner::witness("c02-downstream-preimage-learned");
+				},
+				Obs::Sent { from, wire, .. }
+					if *from == self.fwd && matches!(wire, Wire::Fail(_) | Wire::FailMalformed(_)) && wire.channel_id() == Some(up_cid) =>
+				{
+					let htlc_id = match wire {
+						Wire::Fail(m) => m.htlc_id,
+						Wire::FailMalformed(m) => m.htlc_id,
+						_ => unreachable!(),
+					};
+					// which hash? by upstream htlc id
+					let hash = self.incoming.iter().find(|(_, v)| v.2 == htlc_id).map(|(h, _)| *h);
+					if let Some(h) = hash {
+						if self.preimage_learned.contains_key(&h) {
+							return Err(Self::fail("failed the upstream HTLC back although the downstream preimage had been delivered".into()));
+						}
+						// every downstream commitment we signed that contains it must be revoked, unless the channel
+						// was resolved on chain in a way that leaves the next hop nothing to claim
+						let on_chain = self.resolved_on_chain(w, &h);
+						if on_chain {
+							crate::runner::witness("c02-upstream-fail-after-onchain-resolution");
+						}
+						for (num, hashes) in self.signed_down.iter() {
+							if !on_chain && hashes.contains(&h) && *num < self.down_revoked_from {
+								return Err(Self::fail(format!(
+									"failed the upstream HTLC back while the downstream peer still holds unrevoked commitment #{} containing the HTLC",
+									INITIAL_COMMITMENT_NUMBER - num
+								)));
+							}
+						}
+						self.failed_up.insert(h, true);
+						crate::runner::witness("c02-upstream-fail-checked");
+					}
+				},
+				Obs::Sent { from, wire: Wire::Fulfill(m), .. } if *from == self.fwd && m.channel_id == up_cid => {
+					let h = {
+						use bitcoin::hashes::Hash;
+						bitcoin::hashes::sha256::Hash::hash(&m.payment_preimage.0).to_byte_array()
+					};
+					self.fulfilled_up.insert(h, true);
+				},
+				Obs::Event { node, ev: Event::PaymentForwarded { total_fee_earned_msat, claim_from_onchain_tx, .. } } if *node == self.fwd => {
+					self.forwarded_events.push((*total_fee_earned_msat, *claim_from_onchain_tx));
+				},
+				Obs::Event { ev: Event::ChannelClosed { .. }, .. } => {
+					self.closed_any = true;
+				},
+				_ => {},
+			}
+		}
+		Ok(())
+	}
+}
+
+impl Oracle for ForwardOracle {
+	fn name(&self) -> &'static str {
+		"forwarder-safety"
+	}
+	fn observe(&mut self, w: &World, obs: &[Obs]) -> Result<(), Failure> {
+		self.scan(w, obs)
+	}
+	fn at_end(&mut self, w: &mut World) -> Result<String, Failure> {
+		// every learned preimage must have been claimed upstream
+		for (h, _) in self.preimage_learned.iter() {
+			if !self.fulfilled_up.contains_key(h) && !self.closed_any {
+				return Err(Self::fail("learned the downstream preimage but never claimed the upstream HTLC".into()));
+			}
+		}
+		let (after, pending, nchan) = offchain_funds_msat(w, self.fwd);
+		let mut label = format!("fwd{}", self.forwarded_events.len());
+		if !self.closed_any && pending == 0 && nchan == 2 {
+			let earned: u64 = self.fulfilled_up.len() as u64 * self.fee_base_msat;
+			if after != self.funds_before + earned {
+				return Err(Self::fail(format!(
+					"forwarder funds {} msat after vs {} before + {} fees earned",
+					after, self.funds_before, earned
+				)));
+			}
+			let reported: u64 = self.forwarded_events.iter().map(|e| e.0.unwrap_or(0)).sum();
+			if reported != earned {
+				return Err(Self::fail(format!("PaymentForwarded reports {} msat of fees, ledger says {}", reported, earned)));
+			}
+			crate::runner::witness("c02-funds-compared-offchain");
+			label.push_str(&format!("+{}", earned));
+		}
+		Ok(label)
+	}
+}
+
+/// C03: sender-side truthfulness of terminal events and exact debit.
+pub struct SenderOracle {
+	pub sender: usize,
+	pub funds_before: u64,
+	pub allow_repeats: bool,
+}
+impl SenderOracle {
+	pub fn new(w: &World, sender: usize) -> Self {
+		SenderOracle { sender, funds_before: offchain_funds_msat(w, sender).0, allow_repeats: false }
+	}
+}
+impl Oracle for SenderOracle {
+	fn name(&self) -> &'static str {
+		"sender-truthful"
+	}
+	fn observe(&mut self, w: &World, obs: &[Obs]) -> Result<(), Failure> {
+		use bitcoin::hashes::Hash;
+		for o in obs {
+			match o {
+				Obs::Event { node, ev: Event::PaymentSent { payment_preimage, payment_hash, .. } } if *node == self.sender => {
+					let h = bitcoin::hashes::sha256::Hash::hash(&payment_preimage.0).to_byte_array();
+					if h != payment_hash.0 {
+						return Err(Failure::new("sender-truthful", "PaymentSent preimage does not hash to the payment hash".to_string()));
+					}
+					match w.payments.iter().find(|p| p.hash == *payment_hash) {
+						Some(p) if p.claimed_by_recipient => {},
+						_ => return Err(Failure::new("sender-truthful", "PaymentSent although the recipient never released the preimage".to_string())),
+					}
+				},
+				Obs::Event { node, ev: Event::PaymentPathFailed { short_channel_id, payment_hash, payment_failed_permanently, .. } } if *node == self.sender => {
+					let _ = (short_channel_id, payment_hash, payment_failed_permanently);
+					crate::runner::witness("c03-path-failed-seen");
+				},
+				_ => {},
+			}
+		}
+		Ok(())
+	}
+	fn at_end(&mut self, w: &mut World) -> Result<String, Failure> {
+		let f = |d: String| Failure::new("sender-truthful", d);
+		let mut debit = 0u64;
+		let mut label = String::new();
+		let mut all_terminal = true;
+		for p in w.payments.iter().filter(|p| p.from == self.sender) {
+			let sent: Vec<Option<u64>> = w
+				.obs
+				.iter()
+				.filter_map(|o| match o {
+					Obs::Event { node, ev: Event::PaymentSent { payment_hash, fee_paid_msat, .. } } if *node == self.sender && *payment_hash == p.hash => Some(*fee_paid_msat),
+					_ => None,
+				})
+				.collect();
+			let failed = w.obs.iter().filter(|o| matches!(o, Obs::Event { node, ev: Event::PaymentFailed { payment_hash: Some(h), .. } } if *node == self.sender && *h == p.hash)).count();
+			if !p.send_ok {
+				if !sent.is_empty() {
+					return Err(f("PaymentSent for a payment whose send was refused".into()));
+				}
+				label.push('x');
+				continue;
+			}
+			if !sent.is_empty() && failed > 0 {
+				return Err(f(format!("payment reported both PaymentSent x{} and PaymentFailed x{}", sent.len(), failed)));
+			}
+			if !self.allow_repeats && (sent.len() > 1 || failed > 1) {
+				return Err(f(format!("terminal event repeated without a restart: PaymentSent x{} PaymentFailed x{}", sent.len(), failed)));
+			}
+			if p.claimed_by_recipient && sent.is_empty() {
+				return Err(f("recipient's claim settled but no PaymentSent".into()));
+			}
+			if p.failed_by_recipient && failed == 0 {
+				return Err(f("payment failed by recipient but no PaymentFailed".into()));
+			}
+			if let Some(fee) = sent.first() {
+				debit += p.amount_msat + fee.unwrap_or(0);
+				label.push('S');
+			} else if failed > 0 {
+				label.push('F');
+			} else {
+				all_terminal = false;
+				label.push('?');
+			}
+		}
+		let (after, pending, _) = offchain_funds_msat(w, self.sender);
+		let closed = w.obs.iter().any(|o| matches!(o, Obs::Event { ev: Event::ChannelClosed { .. }, .. }));
+		if all_terminal && pending == 0 && !closed {
+			// also count what the sender received from others
+			let credit: u64 = w
+				.payments
+				.iter()
+				.filter(|p| p.to == self.sender && p.claimed_by_recipient)
+				.map(|p| p.amount_msat)
+				.sum();
+			if after + debit != self.funds_before + credit {
+				return Err(f(format!(
+					"sender funds: before {} after {} reported debit {} credit {} (must balance exactly)",
+					self.funds_before, after, debit, credit
+				)));
+			}
+			crate::runner::witness("c03-sender-debit-exact");
+		}
+		Ok(label)
+	}
+}
